@@ -341,19 +341,29 @@ func (e *l1env) runProcess(c procCfg, items []item) (res procResult) {
 	tun := protocol.VerifNewTunnel(mt, mt, id, "192.0.2.1:1234")
 	p := protocol.NewProcessor(gw, tun)
 
+	res.obs = finishProcess(e, tr, mt, tun, func() error { return p.Process(context.Background()) })
+	if strings.Contains(res.obs, "PANIC") {
+		res.panicked = "panic"
+	}
+	return
+}
+
+// finishProcess runs the processor and assembles the canonical observation.
+func finishProcess(e *l1env, tr *trace, mt *memTransport, tun *protocol.Tunnel, run func() error) string {
 	var err error
+	panicked := ""
 	func() {
 		defer func() {
 			if r := recover(); r != nil {
-				res.panicked = fmt.Sprint(r)
+				panicked = fmt.Sprint(r)
 			}
 		}()
-		err = p.Process(context.Background())
+		err = run()
 	}()
 	tr.mu.Lock()
 	tr.sync()
 	tr.mu.Unlock()
-	if res.panicked != "" {
+	if panicked != "" {
 		tr.add("PANIC")
 	} else if err == nil {
 		tr.add("E:ok")
@@ -378,6 +388,5 @@ func (e *l1env) runProcess(c procCfg, items []item) (res procResult) {
 	}
 	tr.toks = append(tr.toks, "H:"+hx(host))
 	tr.toks = append(tr.toks, "N:"+strconv.Itoa(mt.reads))
-	res.obs = strings.Join(tr.toks, " ")
-	return
+	return strings.Join(tr.toks, " ")
 }
